@@ -14,7 +14,9 @@
 package socket
 
 import (
+	"bytes"
 	"hash/crc32"
+	"io"
 	"net"
 	"time"
 
@@ -57,6 +59,24 @@ func parseHeader(header [12]byte) (length int, index int, ok bool) {
 		index &= 0x7fffffff
 	}
 	return
+}
+
+// readBody reads a frame body of length bytes. A large body is collected as it arrives,
+// so that a header that merely declares a huge length cannot make the receiver allocate it.
+func readBody(r io.Reader, length int) ([]byte, error) {
+	const atOnce = 1 << 20
+	if length <= atOnce {
+		body := make([]byte, length)
+		_, err := io.ReadAtLeast(r, body, length)
+		return body, err
+	}
+	var buffer bytes.Buffer
+	buffer.Grow(atOnce)
+	_, err := io.CopyN(&buffer, r, int64(length))
+	if err == io.EOF {
+		err = io.ErrUnexpectedEOF
+	}
+	return buffer.Bytes(), err
 }
 
 func nextTempDelay(err error, onError func(net.Conn, error), tempDelay time.Duration) time.Duration {
